@@ -47,6 +47,17 @@ def opFlip (d : List UInt8) (bits : List Nat) : String :=
 
 def parseNats (s : String) : Option (List Nat) := (s.splitOn ",").mapM String.toNat?
 
+def parseSched (s : String) : Option (List StreamOp) :=
+  (s.splitOn "|").mapM fun w =>
+    if w == "s" then some StreamOp.scanOnce
+    else if w.startsWith "a" then (bytesOfHex (w.drop 1).toString).map StreamOp.append
+    else none
+
+def opSched (ops : List StreamOp) : String :=
+  let s := (ops.foldl StreamState.step .init).finish
+  s!"{s.consumed} {s.buf.length} {s.delivered.length}" ++
+    String.join (s.delivered.map fun f => " " ++ hexOrDash f.frameData)
+
 def parseChunks (s : String) : Option (List (List UInt8)) :=
   (s.splitOn "|").mapM bytesOfHex
 
@@ -209,6 +220,7 @@ def handle (checked : Bool) (line : String) : String :=
   | ["SCAN", h] => match bytesOfHex h with | some d => opScan d | none => "BAD-OP"
   | ["ITER", h] => match bytesOfHex h with | some d => opIter d | none => "BAD-OP"
   | ["FEED", h] => match parseChunks h with | some cs => opFeed cs | none => "BAD-OP"
+  | ["SCHED", h] => match parseSched h with | some ops => opSched ops | none => "BAD-OP"
   | ["FLIP", h, b] =>
     match bytesOfHex h, parseNats b with
     | some d, some bs => opFlip d bs
